@@ -37,7 +37,7 @@ pub const DEF: CheckDef = CheckDef {
     id: "C18",
     run,
     technique: "bounded-exhaustive enumeration of consistent camt.053 statements rendered as XML by the generator; the real importer (library entry point and ImportCmd on real files) is compared with a reference import written from the statement, and funding + printed output is fed back through the real report::process (acceptance and exact final balance)",
-    rule: "case = one statement + configuration = (currency unit, opening balance (3 per unit; CHF: 0, 100.00, -50.25), notation of the figures, configuration, sequence of entries). Entry alphabet E (1260) = side{CRDT,DBIT} x amount{0.05,10.10,1000} x 5 relative value/booking-date forms x 42 detail/charge shapes (see notes/C18/NOTES.md). Families, each a complete product x 3 openings: F0 no entry, F1 one entry over E, F1n same without operator, F2n pairs without operator over 24, quick F2 pairs over 108 / F2d date pairs over 20 / F3 triples over 12, thorough F2 pairs over 1140 / F3 triples over 72 / F4 quadruples over 12 (all x 2 row orders); configuration families over 18 letters: Fw imported-account width 34..48 x {ASCII, wide} x precision {2, none}, Fc same for the rewrite-assigned counter account, Fl 10 nested-fragment layouts x 2 row orders; value classes: Fd one entry x 20 absolute (value, booking) date pairs (month/year/leap-day/decade/millennium boundaries, > 1 year apart, both orders) x 2 row orders; Fp-<ccy> one entry over 32 letters in units of 0/1/2/3/4/8 decimals (JPY, XDC, CHF, KWD, CLF, BTC; amounts 5 units, all-decimals figure, >= 1 000 000, 1.1) x notation {full, minimal, zero-padded} x precision {unit, none}; Fq-<ccy> pairs over 8 letters. states = statements executed, transitions = ledger transactions compared with the reference (both observations), validated = MUST statements",
+    rule: "case = one statement + configuration = (currency unit, opening balance (3 per unit; CHF: 0, 100.00, -50.25), notation of the figures, configuration, sequence of entries). Entry alphabet E (1440) = side{CRDT,DBIT} x amount{0.05,10.10,1000} x 5 relative value/booking-date forms x 48 detail/charge shapes (see notes/C18/NOTES.md). Families, each a complete product x 3 openings: F0 no entry, F1 one entry over E, F1n same without operator, F2n pairs without operator over 24, quick F2 pairs over 108 / F2d date pairs over 20 / F3 triples over 12, thorough F2 pairs over 1140 / F3 triples over 72 / F4 quadruples over 12 (all x 2 row orders); configuration families over 18 letters: Fw imported-account width 34..48 x {ASCII, wide} x precision {2, none}, Fc same for the rewrite-assigned counter account, Fl 10 nested-fragment layouts x 2 row orders; value classes: Fd one entry x 20 absolute (value, booking) date pairs (month/year/leap-day/decade/millennium boundaries, > 1 year apart, both orders) x 2 row orders; Fp-<ccy> one entry over 32 letters in units of 0/1/2/3/4/8 decimals (JPY, XDC, CHF, KWD, CLF, BTC; amounts 5 units, all-decimals figure, >= 1 000 000, 1.1) x notation {full, minimal, zero-padded} x precision {unit, none}; Fq-<ccy> pairs over 8 letters; zero figures: Fz one zero-amount entry (CRDT, DBIT) x 2 date forms x 10 charge-free shapes, Fz2 pairs over side x {0, 10.10} x {k0,k1,k2}, Fz3 triples over side x {0, 0.05} x k0 (x 2 row orders). states = statements executed, transitions = ledger transactions compared with the reference (both observations), validated = MUST statements",
     assumptions: &[
         "the generator's XML skeleton follows okane's own sample file (cli/tests/testdata/import/iso_camt.xml); elements okane does not model (GrpHdr, Acct, TxsSummry, RvslInd, Sts, Btch totals, RltdPties) are constant",
         "included charge: the entry/detail amount is the account movement; AmtDtls/TxAmt (when rendered) is the amount net of the included charges (debit: Amt - charges, credit: Amt + charges) as in the sample file; an entry-level charge on a two-detail batch is attributed to the first detail's TxAmt",
@@ -66,7 +66,9 @@ struct Unit {
 }
 
 /// the unit of all families but Fp: 0 / 100.00 / -50.25; 0.05, 10.10, 1000
-static CHF: Unit = Unit { ccy: "CHF", scale: 2, openings: [0, 100_00, -50_25], amounts: &[5, 10_10, 1000_00], first: &[3, 10_00, 999_95] };
+static CHF: Unit = Unit { ccy: "CHF", scale: 2, openings: [0, 100_00, -50_25], amounts: &[5, 10_10, 1000_00, 0], first: &[3, 10_00, 999_95, 0] };
+/// index of the ZERO amount of the unit CHF (families Fz*; every detail of a zero entry is zero as well)
+const ZERO_AMT: usize = 3;
 
 /// Units of the precision family Fp: 0, 1, 2, 3, 4 and 8 decimals. Amounts: 5 units (< 0.01 from 3 decimals on),
 /// a figure using every decimal, one >= 1 000 000 (plus one unit), and 1.1 (trailing zeros when written in full).
@@ -209,6 +211,18 @@ impl Chg {
     }
 }
 
+/// Where a zero figure sits inside a batch (details still sum, with signs, to the entry).
+#[derive(Clone, Copy, PartialEq, Eq, Debug)]
+enum Lay {
+    Std,
+    /// the j-th detail has amount 0 and the entry's indicator; the others carry the whole entry
+    ZeroAt(usize),
+    /// the j-th detail has amount 0 and the OPPOSITE indicator
+    ZeroOppAt(usize),
+    /// two details (amount - 0.01, 0.01): with an included charge of 0.01 on the last one its TxAmt is 0 for a debit
+    TinyLast,
+}
+
 #[derive(Clone, Copy, Debug)]
 struct Shape {
     name: &'static str,
@@ -216,6 +230,8 @@ struct Shape {
     k: usize,
     /// index of the one TxDtls whose CdtDbtInd is OPPOSITE to the entry's (signed details still sum to the entry)
     opp: Option<usize>,
+    /// special amounts inside the batch
+    lay: Lay,
     /// NtryDtls/Btch rendered (always when k > 0)
     btch: bool,
     entry_chg: Chg,
@@ -225,21 +241,26 @@ struct Shape {
 }
 
 const fn sh(name: &'static str, k: usize, btch: bool, entry_chg: Chg, d0: Chg, d1: Chg, amt_dtls: bool) -> Shape {
-    Shape { name, k, opp: None, btch, entry_chg, det_chg: [d0, d1, Chg::None], amt: [amt_dtls; 3] }
+    Shape { name, k, opp: None, lay: Lay::Std, btch, entry_chg, det_chg: [d0, d1, Chg::None], amt: [amt_dtls; 3] }
 }
 
 /// batch with one detail of the opposite indicator
 const fn shm(name: &'static str, k: usize, opp: Option<usize>, d1: Chg, amt_dtls: bool) -> Shape {
-    Shape { name, k, opp, btch: true, entry_chg: Chg::None, det_chg: [Chg::None, d1, Chg::None], amt: [amt_dtls; 3] }
+    Shape { name, k, opp, lay: Lay::Std, btch: true, entry_chg: Chg::None, det_chg: [Chg::None, d1, Chg::None], amt: [amt_dtls; 3] }
 }
 
 /// heterogeneous batch: every detail carries one included detail-level charge; `t` = index of the only detail that
 /// also has AmtDtls (TxAmt = amount net of the charge, i.e. TxAmt != Amt), the others have no AmtDtls at all
 const fn shh(name: &'static str, k: usize, opp: Option<usize>, t: usize) -> Shape {
-    Shape { name, k, opp, btch: true, entry_chg: Chg::None, det_chg: [Chg::Incl; 3], amt: [t == 0, t == 1, t == 2] }
+    Shape { name, k, opp, lay: Lay::Std, btch: true, entry_chg: Chg::None, det_chg: [Chg::Incl; 3], amt: [t == 0, t == 1, t == 2] }
 }
 
-const SHAPES: [Shape; 42] = [
+/// batch with a zero figure
+const fn shz(name: &'static str, k: usize, lay: Lay, d1: Chg, amt_dtls: bool) -> Shape {
+    Shape { name, k, opp: None, lay, btch: true, entry_chg: Chg::None, det_chg: [Chg::None, d1, Chg::None], amt: [amt_dtls; 3] }
+}
+
+const SHAPES: [Shape; 48] = [
     sh("k0", 0, false, Chg::None, Chg::None, Chg::None, false),
     sh("k0-btch", 0, true, Chg::None, Chg::None, Chg::None, false),
     sh("k1", 1, true, Chg::None, Chg::None, Chg::None, false),
@@ -287,6 +308,13 @@ const SHAPES: [Shape; 42] = [
     sh("k0-entry-empty-chrgs", 0, false, Chg::Empty, Chg::None, Chg::None, false),
     sh("k1-det-empty-chrgs", 1, true, Chg::None, Chg::Empty, Chg::None, false),
     sh("k2-entry-zero-chg", 2, true, Chg::Zero, Chg::None, Chg::None, false),
+    // zero figures inside a batch of a non-zero entry
+    shz("k2-zero-last", 2, Lay::ZeroAt(1), Chg::None, false),
+    shz("k2-zero-first", 2, Lay::ZeroAt(0), Chg::None, false),
+    shz("k2-zero-opp", 2, Lay::ZeroOppAt(1), Chg::None, false),
+    shz("k3-zero-mid", 3, Lay::ZeroAt(1), Chg::None, false),
+    shz("k2-zero-amtdtls", 2, Lay::ZeroAt(1), Chg::None, true),
+    shz("k2-txamt-zero", 2, Lay::TinyLast, Chg::Incl, true),
 ];
 
 /// the shapes up to here form the pair alphabet of the thorough tier (the later ones are in F1 only)
@@ -350,6 +378,10 @@ impl EntrySpec {
     fn amount(&self) -> i64 {
         self.unit.amounts[self.amt]
     }
+    /// the entry, one of its details or a TxAmt is zero
+    fn has_zero_figure(&self) -> bool {
+        self.amount() == 0 || self.shape().lay != Lay::Std
+    }
     fn shape(&self) -> &'static Shape {
         &SHAPES[self.shape]
     }
@@ -367,6 +399,15 @@ impl EntrySpec {
         let x = a - f;
         let own = self.side;
         let other = if own == Side::Credit { Side::Debit } else { Side::Credit };
+        match (s.k, s.lay) {
+            (_, Lay::Std) => {}
+            (2, Lay::ZeroAt(1)) => return vec![(a, own), (0, own)],
+            (2, Lay::ZeroAt(0)) => return vec![(0, own), (a, own)],
+            (2, Lay::ZeroOppAt(1)) => return vec![(a, own), (0, other)],
+            (3, Lay::ZeroAt(1)) => return vec![(f, own), (0, own), (x, own)],
+            (2, Lay::TinyLast) => return vec![(a - DETAIL_CHARGE, own), (DETAIL_CHARGE, own)],
+            _ => panic!("harness bug: unsupported zero layout"),
+        }
         match (s.k, s.opp) {
             (0, _) => vec![],
             (1, None) => vec![(a, own)],
@@ -1042,7 +1083,9 @@ fn judge(sc: &Scratch, stmt: &Stmt, xml: &str, txns_compared: &mut u64) -> Outco
     let chg = stmt.entries.iter().any(|e| e.shape().has_included());
     let eff = exp.iter().any(|e| e.eff.is_some());
     let noval = stmt.entries.iter().any(|e| matches!(e.dates, Dates::ValueAbsent | Dates::BookDtTmOnly));
-    let kind = if stmt.style != Style::Hybrid {
+    let kind = if stmt.entries.iter().any(|e| e.has_zero_figure()) {
+        "-zero"
+    } else if stmt.style != Style::Hybrid {
         "-precision"
     } else if stmt.entries.iter().any(|e| matches!(e.dates, Dates::Pair(_))) {
         "-dates"
@@ -1108,7 +1151,7 @@ fn families(thorough: bool) -> Vec<Family> {
     let all_dates = [Dates::Same, Dates::BookLater, Dates::BookEarlier, Dates::ValueAbsent, Dates::BookDtTmOnly];
     let all_shapes: Vec<usize> = (0..SHAPES.len()).collect();
     let idx = |names: &[&str]| -> Vec<usize> { names.iter().map(|n| shape_idx(n)).collect() };
-    // E: 2 x 3 x 5 x 42 = 1260
+    // E: 2 x 3 x 5 x 48 = 1440
     let full = alphabet(&both, &all_amts, &all_dates, &all_shapes);
     // Ep: 2 x 3 x 5 x 38 = 1140 (E without the four zero/empty-<Chrgs> shapes)
     let pairs = alphabet(&both, &all_amts, &all_dates, &all_shapes[..PAIR_SHAPES]);
@@ -1163,6 +1206,12 @@ fn families(thorough: bool) -> Vec<Family> {
         layered.push(CfgSpec { account: "Assets:Bank:Savings".to_string(), layout: Layout::Three, ..CfgSpec::plain(new_to_old, true) });
     }
     f.push(Family { name: "Fl", n: 1, cfgs: layered, styles: vec![Style::Hybrid], unit: &CHF, alpha: ec });
+    // --- zero figures: Fz one ZERO entry (CRDT and DBIT) x {value=booking, booking=value+1} x 10 charge-free shapes
+    //     (all details of a zero entry are zero, AmtDtls: TxAmt 0 = Amt 0); Fz2 pairs over side x {0, 10.10} x {k0,k1,k2};
+    //     Fz3 triples over side x {0, 0.05} x k0 (zero entry first / middle / last: carries the closing assertion)
+    f.push(fam("Fz", 1, true, alphabet(&both, &[ZERO_AMT], &[Dates::Same, Dates::BookLater], &idx(&["k0", "k0-btch", "k1", "k1-amtdtls", "k2", "k2-amtdtls", "k2-mixed", "k3", "k0-entry-zero-chg", "k1-zero-chg"]))));
+    f.push(fam("Fz2", 2, true, alphabet(&both, &[ZERO_AMT, 1], &[Dates::Same], &idx(&["k0", "k1", "k2"]))));
+    f.push(fam("Fz3", 3, true, alphabet(&both, &[ZERO_AMT, 0], &[Dates::Same], &idx(&["k0"]))));
     // --- value classes outside the small scope
     // Fd: one entry, every (value date, booking date) pair of DATE_PAIRS: 2 x 3 x 20 x 3 = 360 letters, both row orders
     let pair_dates: Vec<Dates> = (0..DATE_PAIRS.len()).map(Dates::Pair).collect();
@@ -1223,6 +1272,7 @@ fn run(ctx: &mut Ctx) {
             ctx.count("entries", stmt.entries.len() as u64);
             ctx.count("statements_new_to_old", stmt.cfg.new_to_old as u64);
             ctx.count("statements_without_operator", !stmt.cfg.operator as u64);
+            ctx.count("entries_with_a_zero_amount_detail_or_txamt", stmt.entries.iter().filter(|e| e.has_zero_figure()).count() as u64);
             ctx.count("statements_layered_config", (stmt.cfg.layout != Layout::Single) as u64);
             ctx.count("statements_date_pairs_outside_small_scope", stmt.entries.iter().any(|e| matches!(e.dates, Dates::Pair(_))) as u64);
             ctx.count("statements_other_precision_or_notation", (stmt.style != Style::Hybrid) as u64);
